@@ -99,3 +99,17 @@ PROPS["C17"] = {
         {"bin": "c17", "quick": {"cases": 0, "workers": 16, "budget": 600}, "thorough": {"cases": 0, "workers": 16, "budget": 1800}},
     ],
 }
+
+PROPS["C20"] = {
+    "level": "exploration",
+    "engine": "enumeration + rapidcheck",
+    "technique": "exhaustive enumeration of code spaces against independent reference implementations (G.711, IEEE-754 bit patterns, byte swaps) and property-based testing of the ADPCM block decoders against reference decoders",
+    "rule": "enumeration: all 256 G.711 codes through the 4 read types and all 65536 16-bit inputs through the 4 write types for mu-law and A-law (decode table == ITU-T G.711 formulas, encode = interval quantiser, enc(dec(c)) == c); every normal float32 exponent (254) x both signs x {69 mantissa edge patterns + 32K stratified mantissas (quick) | all 2^23 mantissas (thorough)} x both byte orders x read and write through the portable serialisers (SFC_TEST_IEEE_FLOAT_REPLACE); every normal double exponent (2046) x both signs x 4096 (quick) / 2^19 (thorough) mantissas likewise; ENDSWAP_16 for all 2^16 inputs, 32/64-bit swaps and psf_get/put helpers on bit walks + 200K random words; "
+            "rapidcheck: WAV/W64 IMA, WAV/W64 MS ADPCM and AIFF ima4 files whose block bytes are generated (random, all-00/FF/77/88 nibbles, adversarial headers: extreme predictors, step index 0..88 and illegal, MS predictor 0..6 and illegal) for the writer's block sizes 256/512/1024/2048 (34 for ima4), 1-2 channels, decoded through the API and compared sample-exact with independent reference decoders; every enumerated pattern counts as distinct and non-trivial (counted), ADPCM cases are distinct by hash of the case",
+    "assumptions": BASE_ASSUME + ["G.711 encode oracle: the sign-magnitude input lies in the quantisation interval of the level it is mapped to, allowing for the 2 (mu-law) / 3 (A-law) low bits libsndfile drops when reducing 16-bit input to 14/13 bits - the statement's 'nearest level' is not what G.711 itself does at segment boundaries (DESIGN Corrections)",
+                                  "MS ADPCM reference uses an arithmetic shift for the /256 of the predictor (the SoX/libsndfile family); headers outside the format definition (step index > 88, MS predictor >= 7, negative or overflowing delta) only get the memory-safety check",
+                                  "thorough tier enumerates all 2^32 float patterns with a normal exponent; quick is a stratified 2^24 subset"],
+    "stages": [
+        {"bin": "c20", "quick": {"cases": 3000, "workers": 16, "budget": 300}, "thorough": {"cases": 20000, "workers": 16, "budget": 3000}},
+    ],
+}
